@@ -24,6 +24,10 @@ Next ==
 
 Spec == Init /\ [][Next]_vars
 Export == ExportRet
+\* The model state after the child's end is the same with and without the core-dump flag (the flag is not part of the status
+\* the library reports), so one history would stand for both; what is tested is whether the CODE ignores the flag, so the
+\* view keeps the environment records of the history apart.
+viewS == <<view, {hist[k] : k \in {j \in 1..Len(hist) : hist[j].e = "env"}}>>
 
 Stable == life[1] = "exited" => (stv[1] = ch[1].code /\ ch[1].alive = "reaped")
 =============================================================================
